@@ -835,7 +835,7 @@ fn real_main(args: Args) {
     let mut cx = Ctx { out };
     cx.out.rule = "accepted => the number in the AST equals the written numeral (integer literals, SKIP/LIMIT, variable-length bounds; floats: finite and correctly rounded); never a panic (numeral positions, generated and mutated queries, deep nesting)".into();
     let mut r = Rng::new(args.seed);
-    let scale = if args.thorough { 8 } else { 1 };
+    let scale = if args.thorough { 5 } else { 1 };
     let ints = int_pool(&mut r, 60 * scale);
     let floats = float_pool(&mut r, 40 * scale);
 
